@@ -334,7 +334,7 @@ func (g *chainGen) buildLevel(depth int, initial Files, signers []*TestKey, name
 			case "empty-rule-link":
 				put(shortID(victim.ID), g.wrapSign(linkTree(name, mats, Files{"": ""}, cmd), cfg.LinkDSSE, []sigSpec{{key: victim}}))
 			case "huge":
-				files[name+".ffffffff.link"] = strings.Repeat("{\"a\":", 20000)
+				files[name+".ffffffff.link"] = strings.Repeat("{\"a\":", 1500)
 			case "cert":
 				if certLeafKey == nil {
 					continue
